@@ -163,6 +163,14 @@ func (t *termRange) Enumerate(filter filterFunc) [][]byte {
 			rv = append(rv, next)
 		}
 		next = incrementBytes(next)
+		// prefix coded terms carry 7 bits per byte; once the increment
+		// takes any byte other than the last one past 0x7f no term can
+		// start with those bytes, so carry into the preceding byte
+		// instead of walking through all the byte strings in between
+		for i := len(next) - 2; i > 0 && next[i] > 0x7f; i-- {
+			next[i] = 0
+			next[i-1]++
+		}
 	}
 	return rv
 }
